@@ -384,8 +384,10 @@ class simp_full(Conv):
 
 class int_norm_conv(Conv):
     def eval(self, t):
-        norm_t = from_poly(convert_to_poly(t))
-        return Thm(Eq(t, norm_t))
+        # The polynomial-based computation does not produce the same normal
+        # form as the proof below (and fails on powers), so it cannot be used
+        # to predict the result.
+        return self.get_proof_term(t).th
 
     def get_proof_term(self, t):
         return refl(t).on_rhs(
